@@ -687,6 +687,12 @@ pub fn main(args: &[String]) {
                         };
                         all.push(format!("(a : type) => (b : type) => x => {bs}{body}"));
                         all.push(format!("(a : type) => x => (b : type) => {bs}{body}"));
+                        // applied, and the result used at a ground type: if the result's type is misread the program runs into a
+                        // value of the wrong kind
+                        if !bs.contains("=>") && (shape == 0 || shape == 3 || shape == 6) {
+                            all.push(format!("((a : type) => (b : type) => x => {bs}{body}) bool int true + 1"));
+                            all.push(format!("if ((a : type) => x => (b : type) => {bs}{body}) int 3 bool then 1 else 2"));
+                        }
                     }
                 }
             }}
@@ -697,7 +703,7 @@ pub fn main(args: &[String]) {
                 if i % stride == 0 { emit(t, "holescope"); }
             }
         }
-        "nestgroup" => {
+        "nestgroup" | "nestpick" => {
             // a group of type aliases (to a ground type, to a type parameter bound OUTSIDE the group, to another member) in every
             // order, under one or two outer parameters, used below zero to two further parameters: as a parameter's domain, in the
             // result type of the whole group, applied, and at a wrong type.  The group's own type mentions members other than the
@@ -724,20 +730,25 @@ pub fn main(args: &[String]) {
                     }
                 }
             }
-            // groups of one and two members (a rewrite that adds a definition turns them into the larger ones)
+            // groups of one and two members (a rewrite that adds a definition turns them into the larger ones), also bound to a name
+            // and applied: the type computed for the group is then USED
+            let mut small: Vec<String> = vec![];
             for outer in ["(A : type) => (v : A) => ", "(A : type) => (B : type) => (v : A) => "] {
                 for defs in ["g2 : type = A", "g1 : type = int; g2 : type = A", "g2 : type = A; g1 : type = int", "g2 : type = A; g4 : type = g2"] {
                     for b in ["(z : g2) => z", "((z : g2) => z) v", "(p : int) => ((z : g2) => z) v", "((z : g2) => (w : g2) => z) v"] {
-                        all.insert(all.len() / 2, format!("{outer}({defs}; {b})"));
-                        all.insert(all.len() / 3, format!("pick = {outer}({defs}; {b})\n{}", if outer.contains("B :") { "pick int bool 3" } else { "pick int 3" }));
+                        small.push(format!("{outer}({defs}; {b})"));
+                        small.push(format!("pick = {outer}({defs}; {b})\n{}", if outer.contains("B :") { "pick int bool 3" } else { "pick int 3" }));
+                        small.push(format!("pick = {outer}({defs}; {b})\n{}", if outer.contains("B :") { "pick bool int true" } else { "pick bool true" }));
                     }
                 }
             }
+            if kind == "nestpick" { all.clear(); }
+            all.extend(small);
             let total = all.len();
             let keep = if count == 0 { total } else { count.min(total) };
             let stride = (total / keep).max(1);
             for (i, t) in all.into_iter().enumerate() {
-                if i % stride == 0 { emit(t, "nestgroup"); }
+                if i % stride == 0 { emit(t, kind); }
             }
         }
         "typerec" => {
